@@ -27,7 +27,11 @@ Inductive gval :=
 | VErrVal (s : list Z)                   (* *E, E an error with a value receiver: dereferenced to an error *)
 | VPair (a : Z) (s : list Z)             (* struct{A int; B string}: fmt.Sprint -> {A B} *)
 | VPtrInt (z : Z)                        (* *int *)
-| VPPStr (s : list Z).                   (* **string *)
+| VPPStr (s : list Z)                    (* **string *)
+| VNilPtr                                (* a typed nil pointer: not nil, not dereferenced; fmt.Sprint -> <nil> *)
+| VErrStr (s : list Z)                   (* a value that is an error (Error() = "E:"s) AND a Stringer (String() =
+                                            "S:"s): handed over itself, Repr asks String() first *)
+| VPPErrStr (s : list Z).                (* **T of the same T: dereferenced; reprOfValue tests error first *)
 
 (* decimal digits of n >= 0, most significant first; [fuel] digits at most (40: beyond any 64-bit value) *)
 Fixpoint dec_digits (fuel : nat) (n : Z) (acc : list Z) : list Z :=
@@ -60,6 +64,9 @@ Definition repr_model (v : gval) : list Z :=
   | VStr s | VBytes s | VStringer s | VPPStringer s | VErrVal s | VPPStr s => s
   | VErrPtr s => [123] ++ s ++ [125]
   | VPair a s => [123] ++ dec a ++ [32] ++ s ++ [125]
+  | VNilPtr => t_nil
+  | VErrStr s => 83 :: 58 :: s
+  | VPPErrStr s => 69 :: 58 :: s
   end.
 
 (* %v of a float is %g with the shortest digits: exponent form when the decimal exponent is < -4 or
@@ -91,7 +98,9 @@ Definition v_model (v : gval) : option (list Z) :=
   | VStr s | VStringer s | VErrPtr s | VErrVal s => Some s
   | VBytes s => Some ([91] ++ bytes_list s ++ [93])
   | VPair a s => Some ([123] ++ dec a ++ [32] ++ s ++ [125])
-  | VPPStringer _ | VPtrInt _ | VPPStr _ => None
+  | VNilPtr => Some t_nil
+  | VErrStr s => Some (69 :: 58 :: s)                 (* fmt prefers Error() *)
+  | VPPStringer _ | VPtrInt _ | VPPStr _ | VPPErrStr _ => None
   end.
 
 (* innerRepr(node) = fmt.Sprintf("%d:%v", prime, node) *)
